@@ -3,10 +3,31 @@ C01, general round trip, commitment roots: `Prog.cmrs` node by node, under a nod
 the classes of nodes with one identity root — so the decoded program of `roundtrip_general` has, at
 `f i`, the commitment root of node `i`.
 -/
-import SimplicityModel.Prog.RtGeneral
+import SimplicityModel.Prog.RtNodes
 set_option linter.unusedSimpArgs false
 namespace Prog
 open Wire PO
+
+theorem mapCh_hidden (g : Nat → Nat) (nd : Node) (h : Nat) (e : nd.mapCh g = .hidden h) : nd = .hidden h := by
+  cases nd <;> simp [Node.mapCh] at e ⊢
+  exact e
+
+theorem mapCh_witness (g : Nat → Nat) (nd : Node) (e : nd.mapCh g = .witness) : nd = .witness := by
+  cases nd <;> simp [Node.mapCh] at e ⊢
+
+theorem mapCh_open (g : Nat → Nat) (nd : Node) (a : Nat) (e : nd.mapCh g = .disconnect a none) :
+    ∃ a', nd = .disconnect a' none := by
+  cases nd <;> simp [Node.mapCh] at e
+  rename_i a' b'
+  cases b' with
+  | none => exact ⟨a', rfl⟩
+  | some _ => simp at e
+
+theorem hidden_match {α : Type} (nd : Node) (A : Nat → α) (B : α) (h : ∀ x, nd ≠ .hidden x) :
+    (match (some nd : Option Node) with | some (Node.hidden x) => A x | _ => B) = B := by
+  cases nd
+  case hidden x => exact absurd rfl (h x)
+  all_goals rfl
 
 /-- `cmrNode` depends on the roots of the children only (and only on the left child of a disconnect) -/
 theorem cmrNode_congr2 (jc : String → Option Nat) (cm cm' : Nat → Nat) (nd nd' : Node)
@@ -200,6 +221,76 @@ theorem cmr_const {jc : String → Option Nat} {p : Plan} {arrows : Array (BM4.T
     rw [e1, e2] at this
     exact Option.some.inj this
 
+
+/-- the commitment roots of `p` transported to `q` -/
+def cmOf (q : Plan) (cp : Array Nat) (r : Nat → Nat) : Array Nat :=
+  (Array.range q.size).map fun j =>
+    match q[j]? with
+    | some (Node.hidden h) => h
+    | _ => cp.getD (r j) 0
+
+theorem cmOf_getD (q : Plan) (cp : Array Nat) (r : Nat → Nat) (j : Nat) (hj : j < q.size) :
+    (cmOf q cp r).getD j 0 =
+      match q[j]? with
+      | some (Node.hidden h) => h
+      | _ => cp.getD (r j) 0 := by
+  unfold cmOf
+  rw [Array.getD_eq_getD_getElem?, Array.getElem?_eq_getElem (by simpa using hj)]
+  simp only [Array.getElem_map, Array.getElem_range, Option.getD_some]
+
+/-- **commitment roots along a node map** -/
+theorem cmrs_along (jc : String → Option Nat) {p q : Plan} {g r : Nat → Nat} (M : NodeMap p q g r)
+    (hb : PlanBackward p) (hbq : PlanBackward q) (hnohid : ∀ (i h : Nat), p[i]? ≠ some (Node.hidden h))
+    (cp : Array Nat) (hcp : cmrs jc p = some cp)
+    (hconst : ∀ i, i < p.size → r (g i) < p.size → cp.getD (r (g i)) 0 = cp.getD i 0) :
+    ∃ cq, cmrs jc q = some cq ∧ ∀ i, i < p.size → cq.getD (g i) 0 = cp.getD i 0 := by
+  have H := cmrs_spec jc p hb cp hcp
+  have hrepq : ∀ j nd', q[j]? = some nd' → (∀ x, nd' ≠ .hidden x) →
+      r j < p.size ∧ g (r j) = j ∧ nd' = (p[r j]?.getD .unit).mapCh g := by
+    intro j nd' hq' hnh
+    rcases M.sur j nd' hq' with ⟨h, rfl⟩ | ⟨hr, hgr⟩
+    · exact absurd rfl (hnh h)
+    · have hp : p[r j]? = some p[r j] := Array.getElem?_eq_getElem hr
+      have := M.img (r j) _ hp
+      rw [hgr, hq'] at this
+      refine ⟨hr, hgr, ?_⟩
+      rw [hp]; exact Option.some.inj this
+  have himg_nh : ∀ (i : Nat) (nd : Node), p[i]? = some nd → ∀ x, nd.mapCh g ≠ .hidden x := by
+    intro i nd hp x e
+    exact hnohid i x (by rw [hp, mapCh_hidden g _ x e])
+  have hkey : ∀ i, i < p.size → (cmOf q cp r).getD (g i) 0 = cp.getD i 0 := by
+    intro i hi
+    have hp : p[i]? = some p[i] := Array.getElem?_eq_getElem hi
+    have hq' := M.img i _ hp
+    rw [cmOf_getD q cp r (g i) (M.lt hi), hq', hidden_match _ _ _ (himg_nh i _ hp)]
+    obtain ⟨hr, _, _⟩ := hrepq (g i) _ hq' (himg_nh i _ hp)
+    exact hconst i hi hr
+  refine ⟨cmOf q cp r, cmrs_intro jc q hbq _ ⟨by simp [cmOf], ?_⟩, hkey⟩
+  intro j nd' hq'
+  have hj : j < q.size := by
+    rcases Nat.lt_or_ge j q.size with h | h
+    · exact h
+    · rw [Array.getElem?_eq_none h] at hq'; cases hq'
+  rw [cmOf_getD q cp r j hj, hq']
+  by_cases hnh : ∀ x, nd' ≠ .hidden x
+  · obtain ⟨hr, hgr, rfl⟩ := hrepq j nd' hq' hnh
+    have hp : p[r j]? = some p[r j] := Array.getElem?_eq_getElem hr
+    rw [hp] at hnh ⊢
+    simp only [Option.getD_some] at hnh ⊢
+    rw [hidden_match _ _ _ hnh, ← H.2 (r j) _ hp]
+    symm
+    refine cmrNode_mapCh jc _ _ g _ ?_
+    intro c hc
+    have hci : c < p.size := by have := hb (r j) _ hp c hc; omega
+    exact (hkey c hci).symm
+  · have : ∃ x, nd' = .hidden x := by
+      apply Classical.byContradiction
+      intro h
+      exact hnh (fun x e => h ⟨x, e⟩)
+    obtain ⟨x, rfl⟩ := this
+    simp [cmrNode, cmrNodeG]
+
+#print axioms cmrs_along
 #print axioms cmrs_spec
 #print axioms cmrs_intro
 #print axioms cmr_const
